@@ -702,6 +702,11 @@ pub fn zoo() -> Vec<DefSpec> {
     g4[1].ghost = true;
     g4[1].ghost_late = true;
     z.push((g4, f));
+    // a zero-size datum placed at the end of an alignment hole (it shares the offset of the datum
+    // behind the hole), then a variant whose addition does not fit the hole and goes to the end
+    z.push((vec![step(&[], &[("Pod8", t), ("Pod1", t)], 0), step(&[], &[("Pod8", t), ("PodZ", t)], 0), step(&[], &[("Pod8", t)], 0)], f));
+    z.push((vec![step(&[], &[("OwnBox", f), ("Own1", f)], 0), step(&[], &[("OwnBox", f), ("OwnZ", f)], 0), step(&[], &[("OwnBox", f)], 0)], f));
+    z.push((vec![step(&[], &[("OwnBox", f), ("Pod1", t)], 0), step(&[], &[("OwnBox", f)], 0), step(&[], &[("OwnZ", f)], 0), step(&[], &[("OwnBox", f), ("Pod2", t)], 0)], f));
     z.into_iter()
         .enumerate()
         .map(|(i, (steps, reuse))| DefSpec { name: format!("zoo{}", i), steps, reuse_names: reuse })
